@@ -24,7 +24,7 @@ From OV Require Proofs.SrcEqNewtonC.
    of the restored coordinates (all columns), the rounding floor of the difference quotient for any function, the total error
    (truncation + floor + drift) and the optimal-step trade-off.
    (4) drift and rounding floor AT BINARY64 ITSELF (primitive floats through Flocq's specification), any closure, "whenever finite".
-   Still not proved: the complex rounding floor at binary64 itself (standard model only: jacobian_rounding_floor_C); that the closure's own
+   Still not proved: a complex total-error statement (truncation is jacobian_truncation_C, the floor jacobian_rounding_floor_C / jacobian_entry_floor_C_float); that the closure's own
    evaluation error eps is small is the user's obligation (it is a hypothesis everywhere). *)
 From Coq Require Import Reals Lra Lia ZArith.
 From Coq Require Floats.
@@ -1011,3 +1011,76 @@ Example jacobian_call_points_drift_C_float_nonvacuous :
     forall k, (k < length JacExactFloatC.exc_x2)%nat ->
       ComplexRound.ffinite (Complex.re (nth k st (@zero (Complex.CArith FloatInst.SAF)))) /\ ComplexRound.ffinite (Complex.im (nth k st (@zero (Complex.CArith FloatInst.SAF)))).
 Proof. exact JacExactFloatRoundC.excf_conditions. Qed.
+
+(* the rounding floor of an entry of Matrix::<Cmplx>::jacobian_cmplx at binary64, any closure: q = (f^(p_j) - f^(x)) / (delta, 0) with the
+   model's complex float operations.  If both parts of q are finite, the denominator delta delta + 0 0 is finite and non-zero and neither
+   the three products nor the two quotients underflow, each part of q is the exact quotient of the returned parts up to gam 6,
+   u = 2^-53 (jacobian_rounding_floor_C with every rounding hypothesis discharged) *)
+Theorem jacobian_entry_floor_C_float : forall (F : list (Complex.cplx FloatInst.AF) -> res (list (Complex.cplx FloatInst.AF))) (x : list (Complex.cplx FloatInst.AF)) (d : PrimFloat.float) (J : matrix (NA (NCplx FloatInst.SAF))) (evs : list (list (Complex.cplx FloatInst.AF))),
+  jacobian (NCplx FloatInst.SAF) F x (emb (NCplx FloatInst.SAF) d) = Ok (J, evs) ->
+  exists f0, F x = Ok f0 /\ rows J = length f0 /\ cols J = length x /\
+  forall i j, (i < length f0)%nat -> (j < length x)%nat ->
+    exists fj q, F (JacExactGen.call_pt (NCplx FloatInst.SAF) x (emb (NCplx FloatInst.SAF) d) j) = Ok fj /\ mget J i j = Ok q /\
+      Complex.cdiv (Complex.csub (nth i fj (@zero (Complex.CArith FloatInst.SAF))) (nth i f0 (@zero (Complex.CArith FloatInst.SAF)))) (emb (NCplx FloatInst.SAF) d) = Ok q /\
+      forall (Ar Ai Br Bi ea eb : R),
+        ComplexRound.ffinite (Complex.re q) -> ComplexRound.ffinite (Complex.im q) -> ComplexRound.FR (PrimFloat.add (PrimFloat.mul d d) (PrimFloat.mul (@zero FloatInst.AF) (@zero FloatInst.AF))) <> 0%R ->
+        ComplexRound.no_underflow (ComplexRound.FR (Complex.re (Complex.csub (nth i fj (@zero (Complex.CArith FloatInst.SAF))) (nth i f0 (@zero (Complex.CArith FloatInst.SAF))))) * ComplexRound.FR d)%R ->
+        ComplexRound.no_underflow (ComplexRound.FR (Complex.im (Complex.csub (nth i fj (@zero (Complex.CArith FloatInst.SAF))) (nth i f0 (@zero (Complex.CArith FloatInst.SAF))))) * ComplexRound.FR d)%R ->
+        ComplexRound.no_underflow (ComplexRound.FR d * ComplexRound.FR d)%R ->
+        ComplexRound.no_underflow
+          (ComplexRound.FR (PrimFloat.add (PrimFloat.mul (Complex.re (Complex.csub (nth i fj (@zero (Complex.CArith FloatInst.SAF))) (nth i f0 (@zero (Complex.CArith FloatInst.SAF))))) d) (PrimFloat.mul (Complex.im (Complex.csub (nth i fj (@zero (Complex.CArith FloatInst.SAF))) (nth i f0 (@zero (Complex.CArith FloatInst.SAF))))) (@zero FloatInst.AF)))
+           / ComplexRound.FR (PrimFloat.add (PrimFloat.mul d d) (PrimFloat.mul (@zero FloatInst.AF) (@zero FloatInst.AF))))%R ->
+        ComplexRound.no_underflow
+          (ComplexRound.FR (PrimFloat.sub (PrimFloat.mul (Complex.im (Complex.csub (nth i fj (@zero (Complex.CArith FloatInst.SAF))) (nth i f0 (@zero (Complex.CArith FloatInst.SAF))))) d) (PrimFloat.mul (Complex.re (Complex.csub (nth i fj (@zero (Complex.CArith FloatInst.SAF))) (nth i f0 (@zero (Complex.CArith FloatInst.SAF))))) (@zero FloatInst.AF)))
+           / ComplexRound.FR (PrimFloat.add (PrimFloat.mul d d) (PrimFloat.mul (@zero FloatInst.AF) (@zero FloatInst.AF))))%R ->
+        (Rabs (ComplexRound.FR (Complex.re (nth i fj (@zero (Complex.CArith FloatInst.SAF)))) - Ar) <= ea)%R -> (Rabs (ComplexRound.FR (Complex.im (nth i fj (@zero (Complex.CArith FloatInst.SAF)))) - Ai) <= ea)%R ->
+        (Rabs (ComplexRound.FR (Complex.re (nth i f0 (@zero (Complex.CArith FloatInst.SAF)))) - Br) <= eb)%R -> (Rabs (ComplexRound.FR (Complex.im (nth i f0 (@zero (Complex.CArith FloatInst.SAF)))) - Bi) <= eb)%R ->
+        (Rabs (ComplexRound.FR (Complex.re q) - (Ar - Br) / ComplexRound.FR d) <=
+           (RoundModel.gam ComplexRound.u64 6 * Rabs (Ar - Br) + (1 + RoundModel.gam ComplexRound.u64 6) * (ea + eb)) / Rabs (ComplexRound.FR d))%R /\
+        (Rabs (ComplexRound.FR (Complex.im q) - (Ai - Bi) / ComplexRound.FR d) <=
+           (RoundModel.gam ComplexRound.u64 6 * Rabs (Ai - Bi) + (1 + RoundModel.gam ComplexRound.u64 6) * (ea + eb)) / Rabs (ComplexRound.FR d))%R.
+Proof. exact JacExactFloatRoundC.jacobian_entry_floor_C_float_lemma. Qed.
+Check jacobian_entry_floor_C_float : forall (F : list (Complex.cplx FloatInst.AF) -> res (list (Complex.cplx FloatInst.AF))) (x : list (Complex.cplx FloatInst.AF)) (d : PrimFloat.float) (J : matrix (NA (NCplx FloatInst.SAF))) (evs : list (list (Complex.cplx FloatInst.AF))),
+  jacobian (NCplx FloatInst.SAF) F x (emb (NCplx FloatInst.SAF) d) = Ok (J, evs) ->
+  exists f0, F x = Ok f0 /\ rows J = length f0 /\ cols J = length x /\
+  forall i j, (i < length f0)%nat -> (j < length x)%nat ->
+    exists fj q, F (JacExactGen.call_pt (NCplx FloatInst.SAF) x (emb (NCplx FloatInst.SAF) d) j) = Ok fj /\ mget J i j = Ok q /\
+      Complex.cdiv (Complex.csub (nth i fj (@zero (Complex.CArith FloatInst.SAF))) (nth i f0 (@zero (Complex.CArith FloatInst.SAF)))) (emb (NCplx FloatInst.SAF) d) = Ok q /\
+      forall (Ar Ai Br Bi ea eb : R),
+        ComplexRound.ffinite (Complex.re q) -> ComplexRound.ffinite (Complex.im q) -> ComplexRound.FR (PrimFloat.add (PrimFloat.mul d d) (PrimFloat.mul (@zero FloatInst.AF) (@zero FloatInst.AF))) <> 0%R ->
+        ComplexRound.no_underflow (ComplexRound.FR (Complex.re (Complex.csub (nth i fj (@zero (Complex.CArith FloatInst.SAF))) (nth i f0 (@zero (Complex.CArith FloatInst.SAF))))) * ComplexRound.FR d)%R ->
+        ComplexRound.no_underflow (ComplexRound.FR (Complex.im (Complex.csub (nth i fj (@zero (Complex.CArith FloatInst.SAF))) (nth i f0 (@zero (Complex.CArith FloatInst.SAF))))) * ComplexRound.FR d)%R ->
+        ComplexRound.no_underflow (ComplexRound.FR d * ComplexRound.FR d)%R ->
+        ComplexRound.no_underflow
+          (ComplexRound.FR (PrimFloat.add (PrimFloat.mul (Complex.re (Complex.csub (nth i fj (@zero (Complex.CArith FloatInst.SAF))) (nth i f0 (@zero (Complex.CArith FloatInst.SAF))))) d) (PrimFloat.mul (Complex.im (Complex.csub (nth i fj (@zero (Complex.CArith FloatInst.SAF))) (nth i f0 (@zero (Complex.CArith FloatInst.SAF))))) (@zero FloatInst.AF)))
+           / ComplexRound.FR (PrimFloat.add (PrimFloat.mul d d) (PrimFloat.mul (@zero FloatInst.AF) (@zero FloatInst.AF))))%R ->
+        ComplexRound.no_underflow
+          (ComplexRound.FR (PrimFloat.sub (PrimFloat.mul (Complex.im (Complex.csub (nth i fj (@zero (Complex.CArith FloatInst.SAF))) (nth i f0 (@zero (Complex.CArith FloatInst.SAF))))) d) (PrimFloat.mul (Complex.re (Complex.csub (nth i fj (@zero (Complex.CArith FloatInst.SAF))) (nth i f0 (@zero (Complex.CArith FloatInst.SAF))))) (@zero FloatInst.AF)))
+           / ComplexRound.FR (PrimFloat.add (PrimFloat.mul d d) (PrimFloat.mul (@zero FloatInst.AF) (@zero FloatInst.AF))))%R ->
+        (Rabs (ComplexRound.FR (Complex.re (nth i fj (@zero (Complex.CArith FloatInst.SAF)))) - Ar) <= ea)%R -> (Rabs (ComplexRound.FR (Complex.im (nth i fj (@zero (Complex.CArith FloatInst.SAF)))) - Ai) <= ea)%R ->
+        (Rabs (ComplexRound.FR (Complex.re (nth i f0 (@zero (Complex.CArith FloatInst.SAF)))) - Br) <= eb)%R -> (Rabs (ComplexRound.FR (Complex.im (nth i f0 (@zero (Complex.CArith FloatInst.SAF)))) - Bi) <= eb)%R ->
+        (Rabs (ComplexRound.FR (Complex.re q) - (Ar - Br) / ComplexRound.FR d) <=
+           (RoundModel.gam ComplexRound.u64 6 * Rabs (Ar - Br) + (1 + RoundModel.gam ComplexRound.u64 6) * (ea + eb)) / Rabs (ComplexRound.FR d))%R /\
+        (Rabs (ComplexRound.FR (Complex.im q) - (Ai - Bi) / ComplexRound.FR d) <=
+           (RoundModel.gam ComplexRound.u64 6 * Rabs (Ai - Bi) + (1 + RoundModel.gam ComplexRound.u64 6) * (ea + eb)) / Rabs (ComplexRound.FR d))%R.
+Print Assumptions jacobian_entry_floor_C_float.
+(* the identity on C^1 at 1 + i, delta = 0.1 (not dyadic): the entry is 1.0000000000000007 + 0 i *)
+Example jacobian_entry_floor_C_float_nonvacuous :
+  jacobian (NCplx FloatInst.SAF) (fun p => Ok p) JacExactFloatRoundC.excf_x (emb (NCplx FloatInst.SAF) JacExactFloatRound.exf_d) =
+    Ok (JacExactFloatRoundC.excf_J, [JacExactFloatRoundC.excf_x; [JacExactFloatRoundC.excf_a]]) /\
+  let z := Complex.csub JacExactFloatRoundC.excf_a (nth 0 JacExactFloatRoundC.excf_x (@zero (Complex.CArith FloatInst.SAF))) in
+  let den := PrimFloat.add (PrimFloat.mul JacExactFloatRound.exf_d JacExactFloatRound.exf_d)
+                           (PrimFloat.mul (@zero FloatInst.AF) (@zero FloatInst.AF)) in
+  ComplexRound.ffinite (Complex.re (nth 0 (buf JacExactFloatRoundC.excf_J) (@zero (Complex.CArith FloatInst.SAF)))) /\
+  ComplexRound.ffinite (Complex.im (nth 0 (buf JacExactFloatRoundC.excf_J) (@zero (Complex.CArith FloatInst.SAF)))) /\
+  ComplexRound.FR den <> 0%R /\
+  ComplexRound.no_underflow (ComplexRound.FR (Complex.re z) * ComplexRound.FR JacExactFloatRound.exf_d)%R /\
+  ComplexRound.no_underflow (ComplexRound.FR (Complex.im z) * ComplexRound.FR JacExactFloatRound.exf_d)%R /\
+  ComplexRound.no_underflow (ComplexRound.FR JacExactFloatRound.exf_d * ComplexRound.FR JacExactFloatRound.exf_d)%R /\
+  ComplexRound.no_underflow
+    (ComplexRound.FR (PrimFloat.add (PrimFloat.mul (Complex.re z) JacExactFloatRound.exf_d) (PrimFloat.mul (Complex.im z) (@zero FloatInst.AF)))
+     / ComplexRound.FR den)%R /\
+  ComplexRound.no_underflow
+    (ComplexRound.FR (PrimFloat.sub (PrimFloat.mul (Complex.im z) JacExactFloatRound.exf_d) (PrimFloat.mul (Complex.re z) (@zero FloatInst.AF)))
+     / ComplexRound.FR den)%R.
+Proof. split; [exact JacExactFloatRoundC.excf_run|exact JacExactFloatRoundC.excf_floor_conditions]. Qed.
